@@ -177,6 +177,19 @@ def cte_in_clause_subquery(rng):
     return f'WITH {name} AS ({body}) SELECT p.id AS id, (SELECT max(z.a) FROM {name} AS z) AS m FROM int1.t1 AS p'
 
 
+def subquery_in_on(rng):
+    """A sub-query inside the ON clause of a join across integrations (IN / scalar comparison / EXISTS), reading either integration."""
+    r = rng
+    j = r.choice(['JOIN', 'LEFT JOIN', 'INNER JOIN'])
+    sub_home = r.choice(['int1.t3', 'int2.t2', 'int1.t1'])
+    col = {'int1.t3': 'x', 'int2.t2': 'a', 'int1.t1': 'a'}[sub_home]
+    cond = r.choice([f'q.a IN (SELECT s.{col} FROM {sub_home} AS s)', f'p.a = (SELECT max(s.{col}) FROM {sub_home} AS s)',
+                     f'q.id NOT IN (SELECT s.id FROM {sub_home} AS s WHERE s.{col} IS NOT NULL AND s.{col} > 2)',
+                     f'p.id <= (SELECT count(*) FROM {sub_home} AS s)'])
+    on = r.choice([f'p.id = q.id AND {cond}', f'{cond} AND p.id = q.id', cond])
+    return f'SELECT p.id AS id_p, p.a AS a_p, q.id AS id_q, q.a AS a_q FROM int1.t1 AS p {j} int2.t2 AS q ON {on}'
+
+
 def isnull_outer(rng):
     """Outer joins across integrations with IS [NOT] NULL tests on either side in WHERE (the anti-join idiom): a test on the
     NULL-extended side must see the joined row, not the table's own rows."""
@@ -220,6 +233,10 @@ def model_join(rng):
     on = ''
     if r.random() < 0.3:
         on = f' ON m.{r.choice(["inp", "x"])} = t.a'
+    if r.random() < 0.12:
+        # a sub-query inside the ON clause of the model's join (planned as a step of its own: before the join, outside any partition)
+        sub = r.choice(['t.id IN (SELECT s.id FROM int2.t2 AS s)', 't.a = (SELECT max(s.x) FROM int1.t3 AS s)', 't.id NOT IN (SELECT s.id FROM int1.t3 AS s WHERE s.x > 1)'])
+        on = (on + ' AND ' + sub) if on else ' ON ' + sub
     frm += f' JOIN {model} AS {malias}{on}'
     if r.random() < 0.25:
         # a further table (or a second model) after the model
